@@ -7,11 +7,14 @@ if [ "$1" = "-R" ]; then REV="-R"; shift; fi
 P=$(readlink -f "$1"); shift
 cd /repo || exit 2
 if ! git diff --quiet; then echo "/repo has uncommitted changes"; exit 2; fi
-git apply $REV "$P" || { echo "MUTANT $(basename $(dirname $P))/$(basename $P): patch does not apply"; exit 2; }
+SAVE=$(mktemp -d); cp -a /verif/evidence/. $SAVE/ 2>/dev/null
+git apply $REV "$P" || { rm -rf $SAVE; echo "MUTANT $(basename $(dirname $P))/$(basename $P): patch does not apply"; exit 2; }
 for id in "$@"; do
   out=$(cd /verif && VERIF_TIER=${TIER:-quick} timeout 1800 ./check $id 2>&1); rc=$?
   sig=$(echo "$out" | grep -m1 "signature:" | sed 's/^ *//')
   echo "MUTANT $(basename $(dirname $P))/$(basename $P) $id exit=$rc $sig"
   if [ "${VERBOSE:-0}" = 1 ]; then echo "$out" | head -30; fi
 done
-git checkout -- . 
+git checkout -- .
+# evidence written while the patch was applied describes the patched tree: put the old files back
+cp -a $SAVE/. /verif/evidence/ 2>/dev/null; rm -rf $SAVE
